@@ -385,7 +385,7 @@ func (ex *Exec) enterLoop(fr *Frame, lp *loopRec, reach string, st *State) (stri
 		for _, cl := range spec.Invariants {
 			cl := cl
 			inv := invariant{desc: cl.Text, tags: cl.Tags, kind: "annotated",
-				eval: func(e *Exec, f *Frame, s *State) string { return e.evalLoopClause(f, s, cl) }}
+				eval: func(e *Exec, f *Frame, s *State) string { return e.evalLoopClause(f, s, cl, lp) }}
 			ex.oblige(fr, "inv-init", cl.Tags, lp.header.Instrs[0].Pos(), "loop invariant holds on entry: "+cl.Text, reach, inv.eval(ex, fr, st))
 			lc.invs = append(lc.invs, inv)
 		}
@@ -515,7 +515,7 @@ func (ex *Exec) enterLoop(fr *Frame, lp *loopRec, reach string, st *State) (stri
 	// variant
 	if spec != nil && spec.Decreases != nil {
 		d := spec.Decreases
-		lc.variant = func(e *Exec, f *Frame, s *State) string { return e.evalLoopExpr(f, s, d) }
+		lc.variant = func(e *Exec, f *Frame, s *State) string { return e.evalLoopExpr(f, s, d, lp) }
 		lc.varAtHead = ex.sc.define("variant", sInt, lc.variant(ex, fr, hst))
 	}
 	return reach, hst
